@@ -1,6 +1,5 @@
 import Gimli.Lemmas.Attr
 import Gimli.Spec.Attr
-import Gimli.Lemmas.LebSigned
 /-! Helper lemmas for C03, part 3: decoding the DWARF encoding (`Spec.Attr.encodeForm`) of a value
 gives the value back — per primitive reader, then per form. -/
 namespace Gimli.Attr
